@@ -2,17 +2,28 @@
 
 Real lena trees of Sequence/Source/Split (depth <= 3) are built from a JSON description; every context consumer
 (StoreContext, UpdateContextFromStatic, MakeFilename, Write, Cache), every SetContext and every container is
-observed AFTER the whole tree exists and compared with a reference fold written from the property text:
+observed AFTER the whole tree exists and compared with a reference fold written from the property text (class Ref):
 
 * a sequence threads the context through its items in document order; SetContext(key, value) formats value
   against the context that precedes it and merges {key: value} into it;
-* a Split hands each branch a copy of the incoming context and exports the intersection of the branch contexts;
+* a Split hands each branch a copy of the incoming context and exports the intersection of the branch contexts
+  (a Split without branches "acts as an empty Sequence": transparent);
 * consumers keep what they were given (no later or sibling element may change it or a name derived from it);
-* an unresolvable formatting key surfaces as LenaKeyError naming the key when the context is requested;
+* an unresolvable formatting key surfaces as LenaKeyError naming the key when the context is requested; nothing is
+  demanded of elements that FOLLOW such a key in an enclosing sequence;
 * running the tree puts static context into run-time contexts only through UpdateContextFromStatic (and the names
   MakeFilename derives).
 
-Never counted as proved."""
+Failure ids.  A difference found by the reference is named after the element and the clause
+(<Element>/later-SetContext-visible, /fold-mismatch, /unresolved-name-changed, <Container>/exported-context-...,
+LenaKeyError/..., run/...).  Three deviations of the unchanged tree change what MANY elements of a tree see; so that
+each of them keeps one stable id (and does not hide other failures in the same tree), class Sim replays the protocol
+with these deviations switched on one by one, and the smallest set of them that explains more differences than the
+plain reference gives the ids Split/empty-split-erases-context, Source/tail-sequence-rethreads-context-without-SetContext,
+Split/sibling-branch-context-lost-after-unresolved-key; what is left over is named against that world.  Sim is never
+the oracle: a tree is reported iff it differs from Ref.
+
+Witnesses are shrunk by deleting elements while the same id is reported.  Never counted as proved."""
 import copy
 import itertools
 import json
